@@ -572,8 +572,8 @@ theorem throw1_cos (c : Consts ℝ) (u1 u2 u3 u4 : ℝ) :
     (throw1 c u1 u2 u3 u4).costhetaTrSubV = cos (throw1 c u1 u2 u3 u4).thetaTrSubV := rfl
 
 theorem normThetaTr_eq (s : ℝ) : normThetaTr s = 2 / s ^ 2 := by simp [normThetaTr, p2_eq]
-theorem normPhiTr_eq : (normPhiTr : ℝ) = 1 / (2 * π) := by simp [normPhiTr]
-theorem normPhiSOf_eq (mx mn : ℝ) : normPhiSOf mx mn = 1 / (mx - mn) := by simp [normPhiSOf]
+theorem normPhiTr_eq : (normPhiTr : ℝ) = 1 / (2 * π) := by simp only [normPhiTr, pi_eq, ofNat_eq]; norm_num
+theorem normPhiSOf_eq (mx mn : ℝ) : normPhiSOf mx mn = 1 / (mx - mn) := by simp only [normPhiSOf]; norm_num
 theorem bracketOf_eq (R2 D a b : ℝ) :
     bracketOf R2 D a b = (D ^ 2 - R2) * b - (1/3) * b ^ 3 - (D ^ 2 - R2) * a + (1/3) * a ^ 3 := by
   simp [bracketOf, p2_eq, p3_eq]; norm_num
